@@ -25,8 +25,8 @@ CONTRACT_GROUPS = ['C01']   # icontract layer (vlib/contracts.py) active inside 
 RULE = ("case = one generated configuration + point(s); non-trivial if functions were reported and at least one value was compared; "
         "distinct key = case index; monitor_counters.values_compared counts individual numbers checked")
 ASSUMPTIONS = ["the weight row reported in Realizations for a filtered function is the filter's output (checked for correctness by C04/C05)"]
-REQUIRED = {"quick": {"values_compared": 8000, "unfiltered_next_to_filtered": 300, "batch_compared": 1000, "bump_compared": 500, "with_nan": 300, "__nontrivial__": 1500},
-            "thorough": {"values_compared": 150000, "unfiltered_next_to_filtered": 5000, "batch_compared": 20000, "bump_compared": 10000, "with_nan": 5000, "__nontrivial__": 30000}}
+REQUIRED = {"quick": {"values_compared": 8000, "unfiltered_next_to_filtered": 300, "batch_compared": 1000, "bump_compared": 500, "with_nan": 300, "filter_rows_cross_checked": 1500, "__nontrivial__": 1500},
+            "thorough": {"values_compared": 150000, "unfiltered_next_to_filtered": 5000, "batch_compared": 20000, "bump_compared": 10000, "with_nan": 5000, "filter_rows_cross_checked": 30000, "__nontrivial__": 30000}}
 N = {"quick": 3000, "thorough": 60000}
 TOL = 1e-10
 
@@ -121,6 +121,17 @@ def too_few_explained(spec, cfg, res, allv, failed, gradient=False):
     return None if ambiguous else False
 
 
+def _filter_output(cfg, fidx, allv, failed, n_obj):
+    from ropt.exceptions import OptimizationAborted  # noqa: PLC0415
+
+    prop = np.where(failed[:, None], np.nan, allv)
+    flt = ens.plugin_manager().get_plugin("realization_filter", cfg.realization_filters[fidx].method).create(cfg, fidx)
+    try:
+        return np.asarray(flt.get_realization_weights(prop[:, :n_obj], prop[:, n_obj:] if prop.shape[1] > n_obj else None))
+    except OptimizationAborted:
+        return None
+
+
 def expected_functions(obs, spec, cfg, res, objs, cons):
     """Compare one FunctionResults with the model. objs/cons: raw evaluator values for this vector."""
     n_obj = objs.shape[1]
@@ -168,6 +179,15 @@ def expected_functions(obs, spec, cfg, res, objs, cons):
                 obs.violation("weight_rows_missing", function=j)
                 return False
             wforce = np.asarray(rows[jj])
+            # the row must be what the filter *mapped to this function* produces on these values (the filter's own
+            # correctness is C04/C05's job): ask the real filter object directly
+            wf = _filter_output(cfg, fmap[jj], allv, failed, n_obj)
+            if wf is not None:
+                obs.count("filter_rows_cross_checked")
+                if not np.array_equal(wforce, wf):
+                    obs.violation("row_is_not_the_output_of_the_mapped_filter", function=j, filter=int(fmap[jj]), row=wforce, filter_output=wf,
+                                  omap_f=spec.get("omap_f"), cmap_f=spec.get("cmap_f"))
+                    return False
         else:
             wforce = configured
             if fmap is not None or (spec.get("filters") and (spec.get("omap_f") or spec.get("cmap_f"))):
